@@ -79,6 +79,19 @@ def gen(rng, tier):
                               spec="spec.cat %s %s %s %s" % (t, hexs(a + bb), hexs(a + cc), hexs(a + bb))))
         # streaming HMAC
         klens = [0, 1, b - 1, b, b + 1, 2 * b + 1]
+        # re-keying one object with RELATED keys: same length, common first block / common tail / one byte apart (a "same key" shortcut must compare everything)
+        for kl in [5, b, b + 1, b + 40, 2 * b + 1]:
+            base = bytearray(contents(rng, kl, "rand")); m1 = contents(rng, 20, "rand"); m2 = contents(rng, 70, "rand")
+            variants = []
+            v = bytearray(base); v[-1] ^= 1; variants.append(("last-byte", bytes(v)))
+            v = bytearray(base); v[0] ^= 0x80; variants.append(("first-byte", bytes(v)))
+            if kl > b: v = bytearray(base); v[b] ^= 0x55; variants.append(("byte-after-first-block", bytes(v)))
+            variants.append(("prefix", bytes(base[:-1]))); variants.append(("extended", bytes(base) + b"\x00"))
+            for name, k2 in variants:
+                k1 = bytes(base)
+                cases.append(Case("hmachist %s I:%s U:%s F I:%s U:%s F I:%s U:%s F" % (t, hexs(k1), hexs(m1), hexs(k2), hexs(m2), hexs(k1), hexs(m2)),
+                                  "%s hmac rekey-related %s k%s" % (t, name, "<=B" if kl <= b else ">B"), True,
+                                  spec="spec.hmaccat %s %s:%s %s:%s %s:%s" % (t, hexs(k1), hexs(m1), hexs(k2), hexs(m2), hexs(k1), hexs(m2))))
         for kl in [1, b, b + 1]:
             key = contents(rng, kl, "rand"); okey = contents(rng, rng.choice([1, b, b + 1]), "rand")
             for a_len in [0, 1, b - 9, b, b + 3]:
@@ -118,6 +131,14 @@ def gen(rng, tier):
                 ab = (contents(rng, rng.choice(klens), "rand"), splits(rng, contents(rng, rng.randrange(1, b + 9), "rand"), 2))
             hhist(t, items, "reuse%d%s" % (len(items), " abandoned" if ab else ""), abandon=ab)
     return cases
+
+def extra(ctx):
+    # one HmacContext: a cycle under another key, an init() interrupted by an allocation failure, then a cycle under a shorter key
+    rng = ctx["rng"]; lines = []
+    for t in HASHES:
+        for kl in [7, BS[t], BS[t] + 9]:
+            lines.append("oom hmacctx_reuse %s %s %s" % (t, hexs(contents(rng, kl, "rand")), hexs(contents(rng, 30, "rand"))))
+    return oom_extra(ctx, lines, "HmacContext re-keyed after a failed init")
 
 def key(case, impl, model):
     p = case.line.split()
